@@ -9,6 +9,7 @@
 -/
 import Proofs.Lemmas.EndToEnd
 import Proofs.Lemmas.StreamingAlgs
+import Proofs.C09
 namespace Proofs.C01
 open Model Model.Gen.Hashes Proofs.Lemmas Proofs.Lemmas.BitsBitVec Proofs.Lemmas.Parse Proofs.Lemmas.Compose
   Proofs.Lemmas.EndToEnd
@@ -201,6 +202,27 @@ theorem bitlen_too_large (alg : Model.Alg) (M : List Nat) (L : Nat) (hL : L > 8 
     ∃ e, Model.hash alg M (some L) = .error e :=
   too_large alg M L hL
 
+/-- **streamed_bitlen_too_large**: the streaming form of `bitlen_too_large`.  `update(M, bitlen=L, padding=…)` with a bit
+    length larger than the data supplied IN THAT CALL is refused from ANY object state — any chaining value, any padding
+    state, in particular after any number of blocks were fed by earlier `update` calls (the bits fed before do not count
+    towards the data of this call) — and the refusal leaves the object exactly as it was (no block absorbed, counter, pad
+    flag and chaining value untouched), so the piece can be sent again with its true length.  Generic in the hash core,
+    hence for the ten algorithms; it is the padding iterator's refusal (`Proofs.C09.refuse_bitlen_beyond`) seen through
+    the `for` loop of `update`. -/
+theorem streamed_bitlen_too_large (c : HashCore) (o : HashObj) (M : List Nat) (L : Nat) (padding : Bool)
+    (hL : L > 8 * M.length) :
+    (∃ e, (c.update o M (some L) padding).2 = .error e) ∧ (c.update o M (some L) padding).1 = o := by
+  obtain ⟨hy, he, hf⟩ := Proofs.C09.refuse_bitlen_beyond c.padder o.pad M L padding hL
+  obtain ⟨e, hee⟩ := Option.isSome_iff_exists.mp he
+  refine ⟨⟨e, ?_⟩, ?_⟩ <;> simp only [HashCore.update, hy, HashCore.absorb, hee, hf]
+
+/-- …for the objects of the library: after `initstate(); update(p1); …; update(pk)` with block-aligned pieces (any number
+    of blocks fed) the final `update(q, bitlen=L, padding=True)` with L > 8|q| is refused — also when L ≤ bits fed + 8|q| -/
+theorem streamed_bitlen_too_large_after_pieces (alg : Model.Alg) (c : HashCore) (_hc : alg.new = .ok c)
+    (pieces : List (List Nat)) (q : List Nat) (L : Nat) (hL : L > 8 * q.length) :
+    ∃ e, (c.update (pieces.foldl (fun o P => (c.update o P none false).1) c.initstate) q (some L) true).2 = .error e :=
+  (streamed_bitlen_too_large c _ q L true hL).1
+
 /-- **final_update_refines** (bit counters of any size): a final `update(M,bitlen,padding=True)` on an object that holds a
     standard chaining value `s` and whose counter says that `st.bitcnt` bits (whole blocks, any number — in particular
     more than 2^32 or 2^64) were absorbed returns the standard's digest continued from `s`: the tail padded with the
@@ -250,6 +272,9 @@ theorem second_call_refines_omitted (alg : Model.Alg) (c : HashCore) (hc : alg.n
     (FIPS 180-4 / RFC 1321 test vector "abc", evaluated in the kernel) -/
 example : ∃ (M : List Spec.Byte) (L : Nat), 0 < L ∧ L ≤ 8 * M.length ∧ L % 8 ≠ 0 := ⟨[0xa5#8, 0x80#8], 9, by decide⟩
 example : ∃ (M : List Nat) (L : Nat), L > 8 * M.length := ⟨[1, 2], 17, by decide⟩
+/-- the streamed refusal is not vacuous: a length that would be in range if it counted from the first bit ever fed
+    (512 bits fed + 24 bits of data ≥ 32) but exceeds the data of the call -/
+example : ∃ (fed : Nat) (M : List Nat) (L : Nat), L > 8 * M.length ∧ L ≤ fed + 8 * M.length := ⟨512, [0x61, 0x62, 0x63], 32, by decide⟩
 example : toNatBytes (Spec.hash .sha256 (Spec.bytesToBits [0x61#8, 0x62#8, 0x63#8])) =
     [0xba, 0x78, 0x16, 0xbf, 0x8f, 0x01, 0xcf, 0xea, 0x41, 0x41, 0x40, 0xde, 0x5d, 0xae, 0x22, 0x23,
      0xb0, 0x03, 0x61, 0xa3, 0x96, 0x17, 0x7a, 0x9c, 0xb4, 0x10, 0xff, 0x61, 0xf2, 0x00, 0x15, 0xad] := by decide +kernel
